@@ -157,12 +157,13 @@ pub fn bigram_model(regime: Regime, max_ids: usize) -> BoxedStrategy<BigramModel
                                 }
                             }
                             1 => l = String::new(),          // EOS line: x/''
-                            2 => r = "never-in-rows".into(), // feature that never occurs in rows
+                            // a line that names '*' (C07: a '*' cell counts as 0 whatever bigram.cost lists), else a feature that never occurs in rows
+                            2 => r = if c.rem_euclid(10) < 5 { "*".into() } else { "never-in-rows".into() },
                             3 => {
                                 push(r.clone(), l.clone(), 0); // explicit zero cost
                                 continue;
                             }
-                            _ => l = "never-in-rows".into(),
+                            _ => l = if c.rem_euclid(10) < 5 { "*".into() } else { "never-in-rows".into() },
                         }
                     }
                     push(r, l, scale(*c));
